@@ -119,6 +119,17 @@ structure Code where
   producerRecordsErr : Bool
   producerClosesSource : Bool
   producerClosesC : Bool
+  /-- Truth table of the producer's test "this error out of `s.Next(bgCtx)` is my own cancellation
+  (Close was called), not a failure of the source" — the regenerated `else if` guard
+  `Gen.Batch.prodCancelGuard` — for an error that is `context.Canceled` itself (`Bare`), one that
+  wraps it (`Wrap`), any other error (`Other`); while `bgCtx` is live (`Live`: Close has not been
+  called) and after Close (`Closed`). -/
+  guardBareLive : Bool
+  guardWrapLive : Bool
+  guardOtherLive : Bool
+  guardBareClosed : Bool
+  guardWrapClosed : Bool
+  guardOtherClosed : Bool
   deriving DecidableEq, Repr
 
 /-- The code as it is now (every field is a closed term over the generated facts). -/
@@ -150,6 +161,13 @@ def code : Code where
   producerRecordsErr := Gen.Batch.producerRecordsErr
   producerClosesSource := Gen.Batch.producerDefers.contains "s.Close()"
   producerClosesC := Gen.Batch.producerDefers.contains "close(c)"
+  -- arguments: err == context.Canceled, errors.Is(err, context.Canceled), bgCtx.Err() == context.Canceled, bgCtx.Err() != nil
+  guardBareLive := Gen.Batch.prodCancelGuard true true false false
+  guardWrapLive := Gen.Batch.prodCancelGuard false true false false
+  guardOtherLive := Gen.Batch.prodCancelGuard false false false false
+  guardBareClosed := Gen.Batch.prodCancelGuard true true true true
+  guardWrapClosed := Gen.Batch.prodCancelGuard false true true true
+  guardOtherClosed := Gen.Batch.prodCancelGuard false false true true
 
 /-- Parameters of one stream: `maxWait` and which answers `full` may give (`Batch`: exactly the
 generated predicate; `BatchFunc`: whatever the user function says). -/
@@ -203,6 +221,8 @@ def init : State := {}
 inductive Label where
   -- environment
   | srcRet (ev : SrcEv)      -- the source's `Next` returns `ev` to the producer
+  | srcCancelErr (wrapped : Bool) -- the source's `Next` fails *of its own accord* with `context.Canceled`
+                             -- (`wrapped`: with an error wrapping it) — not because `bgCtx` was cancelled
   | nextCall (live : Bool)   -- a consumer calls `Next` (with a live or an already expired context)
   | ctxExpire                -- the pending call's context expires
   | tick (d : Nat)           -- the clock advances
@@ -231,7 +251,7 @@ inductive Label where
 
 /-- Labels that are not choices of the environment (the source, the consumer's caller, the clock). -/
 def Label.internal : Label → Bool
-  | .srcRet _ | .nextCall _ | .ctxExpire | .tick _ | .close => false
+  | .srcRet _ | .srcCancelErr _ | .nextCall _ | .ctxExpire | .tick _ | .close => false
   | _ => true
 
 def stopTimer (k : Code) (s : State) : State :=
@@ -265,6 +285,22 @@ def step (k : Code) (cfg : Cfg) (s : State) : Label → Option State
       | .item v => some { s with ppc := .send v, pulled := s.pulled ++ [v] }
       | .eof => some { s with ppc := .closeC, srcTerm := some .eof }
       | .err => some { s with ppc := .closeC, srcTerm := some .err, err := s.err || k.producerRecordsErr }
+    else none
+  | .srcCancelErr wrapped =>
+    -- the source fails with a `context.Canceled`-flavoured error of its own. Whether the producer
+    -- records it (`out.err = err; return`) or takes it for its own cancellation (`break`, nothing
+    -- recorded) is the regenerated guard. Taken for its own cancellation while Close has *not* been
+    -- called, the source's failure is lost: the stream will end with `End` (`srcTerm = some .err`,
+    -- `err = false`).
+    if s.ppc = .next then
+      let s := { s with srcNexts := s.srcNexts + 1,
+                        srcNextAfterClose := s.srcNextAfterClose || decide (0 < s.srcCloses) }
+      let rec_ : State := { s with ppc := .closeC, srcTerm := some .err, err := s.err || k.producerRecordsErr }
+      match s.bgCancelled, wrapped with
+      | false, false => if k.guardBareLive then some { s with ppc := .closeC, srcTerm := some .err } else some rec_
+      | false, true => if k.guardWrapLive then some { s with ppc := .closeC, srcTerm := some .err } else some rec_
+      | true, false => if k.guardBareClosed then some { s with ppc := .closeC } else some rec_
+      | true, true => if k.guardWrapClosed then some { s with ppc := .closeC } else some rec_
     else none
   | .nextCall live =>
     if s.cons = .idle ∧ s.bgCancelled = false then some { s with cons := .outer, ctxDone := !live } else none
